@@ -30,12 +30,14 @@ var blockedStates = map[string]bool{
 	"select (no cases)":       true,
 	"chan receive (nil chan)": true,
 	"chan send (nil chan)":    true,
-	"semacquire":              true,
-	"sync.Mutex.Lock":         true,
-	"sync.RWMutex.RLock":      true,
-	"sync.RWMutex.Lock":       true,
-	"sync.Cond.Wait":          true,
-	"sync.WaitGroup.Wait":     true,
+	// "semacquire" is deliberately NOT a blocked state: it is the wait reason of runtime-internal
+	// semaphores such as worldsema, which the snapshot's own stop-the-world holds - a goroutine that
+	// wants to start a GC cycle shows up as [semacquire] in the dump and runs again right after it.
+	"sync.Mutex.Lock":     true,
+	"sync.RWMutex.RLock":  true,
+	"sync.RWMutex.Lock":   true,
+	"sync.Cond.Wait":      true,
+	"sync.WaitGroup.Wait": true,
 }
 
 // Snapshot is a consistent (stop-the-world) view of goroutine states.
@@ -98,6 +100,12 @@ func TakeSnapshot(keepDump bool) Snapshot {
 	return s
 }
 
+// DebugKeepDump makes Quiesce keep the dump of the snapshot it judged quiet (debugging only).
+var DebugKeepDump bool
+
+// LastQuietDump is that dump.
+var LastQuietDump []byte
+
 // Quiesce waits until every goroutine other than the caller is blocked (see
 // blockedStates). It returns false if that state was not reached within max;
 // the caller must treat that as inconclusive. For timer-free subsystems a
@@ -107,8 +115,9 @@ func Quiesce(max time.Duration) bool {
 	pause := 20 * time.Microsecond
 	for {
 		runtime.Gosched()
-		s := TakeSnapshot(false)
+		s := TakeSnapshot(DebugKeepDump)
 		if s.NotQuiet == 0 {
+			LastQuietDump = s.Dump
 			return true
 		}
 		if time.Now().After(deadline) {
